@@ -519,6 +519,8 @@ class SymReal:
             return s
         if _is_one(s.e):
             return SymReal(b)
+        if s.e.eq(b) and z3.is_app(b) and b.decl().kind() == z3.Z3_OP_UNINTERPRETED and b.decl().name() == "sqrt":
+            return SymReal(b.arg(0))  # sqrt(u)^2 == u (u >= 0 is a recorded assumption)
         return SymReal(s.e * b)
 
     def __rmul__(s, o):
@@ -568,7 +570,8 @@ class SymReal:
         return s
 
     def __abs__(s):
-        return SymReal(z3.If(s.e >= 0, s.e, -s.e))
+        from .funcs import abs_term
+        return SymReal(abs_term(s.e))
 
     def __pow__(s, o):
         if _nd(o):
